@@ -35,8 +35,38 @@ func checkDiff(c diffCase) *vt.Fail {
 	}); f != nil {
 		return f
 	}
+	if f := vt.Stable(func() string { return fmt.Sprintf("Diff(%q, %q)", c.Old, c.New) }, out, func() {
+		diff.Diff("left", []byte("another\npair\nof texts\n"), "right", []byte("another\npair of\ntexts\nthat differ\n"))
+	}); f != nil {
+		return f
+	}
+	if f := checkAliased(c, out); f != nil {
+		return f
+	}
 	if err := Verify(out, c.Old, c.New, "old", "new"); err != nil {
 		return vt.Failf("bad-diff", "Diff(%q, %q) = %q: %v", c.Old, c.New, out, err)
+	}
+	return nil
+}
+
+// checkAliased passes the two texts as adjacent sub-slices of one buffer (the way a caller that has read both from one
+// file or one archive would), with spare capacity behind each: the texts are what the slices hold, so the result must be
+// the same as for separate copies, and Diff must leave its arguments alone.
+func checkAliased(c diffCase, want []byte) *vt.Fail {
+	buf := make([]byte, 0, len(c.Old)+len(c.New)+16)
+	buf = append(buf, c.Old...)
+	buf = append(buf, c.New...)
+	buf = append(buf, "0123456789abcdef"...)
+	old, new := buf[:len(c.Old)], buf[len(c.Old):len(c.Old)+len(c.New)]
+	var out []byte
+	if f := vt.Guard("diff-panic", func() *vt.Fail { out = diff.Diff("old", old, "new", new); return nil }); f != nil {
+		return f
+	}
+	if !bytes.Equal(buf[:len(c.Old)], c.Old) || !bytes.Equal(buf[len(c.Old):len(c.Old)+len(c.New)], c.New) || string(buf[len(c.Old)+len(c.New):]) != "0123456789abcdef" {
+		return vt.Failf("bad-diff", "Diff(%q, %q) modified the memory of its arguments (texts passed as adjacent sub-slices of one buffer): buffer is now %q", c.Old, c.New, buf)
+	}
+	if !bytes.Equal(out, want) {
+		return vt.Failf("bad-diff", "Diff(%q, %q) = %q when the texts are adjacent sub-slices of one buffer, but %q for separate copies", c.Old, c.New, out, want)
 	}
 	return nil
 }
